@@ -78,13 +78,25 @@ const (
 	EndOfAuditLogChainMessage = "End of current audit log chain"
 )
 
+// splitIntegrityCheck splits a plaintext/cef log line into the authenticated data and the integrity check
+// with the optional chain marker. The integrity check is always appended after the formatted entry, so the line
+// is split at the last DataSplitToken: the same token inside a message, field name or field value belongs to the data.
+// Returns nil if the line has no integrity check.
+func splitIntegrityCheck(rawData string) []string {
+	index := strings.LastIndex(rawData, DataSplitToken)
+	if index < 0 {
+		return nil
+	}
+	return []string{rawData[:index], rawData[index+len(DataSplitToken):]}
+}
+
 // ParseEntry parse cef log line with next expected input example and return ParsedLogEntry:
 // CEF:0|<value>|<value>|<value>|100|<value>|1|unixTime=<value> integrity=<value> chain=<value>
 // CEF:0|<value>|<value>|<value>|100|<value>|1|unixTime=<value> integrity=<value>
 func (parser *CefLogParser) ParseEntry(rawData string) (*ParsedLogEntry, error) {
 	parsedLogEntry := &ParsedLogEntry{}
-	rawLogEntry := strings.Split(rawData, DataSplitToken)
-	if len(rawLogEntry) != 2 {
+	rawLogEntry := splitIntegrityCheck(rawData)
+	if rawLogEntry == nil {
 		return nil, ErrCefIntegrityExtract
 	}
 	parsedLogEntry.RawData = []byte(rawLogEntry[0])
@@ -114,8 +126,8 @@ func (parser *CefLogParser) ParseEntry(rawData string) (*ParsedLogEntry, error) 
 // time="<value>" level=<value> msg="<value>" version=<value> integrity=<value>
 func (parser *PlaintextLogParser) ParseEntry(rawData string) (*ParsedLogEntry, error) {
 	parsedLogEntry := &ParsedLogEntry{}
-	rawLogEntry := strings.Split(rawData, DataSplitToken)
-	if len(rawLogEntry) != 2 {
+	rawLogEntry := splitIntegrityCheck(rawData)
+	if rawLogEntry == nil {
 		return nil, ErrPlaintextIntegrityExtract
 	}
 	parsedLogEntry.RawData = []byte(rawLogEntry[0])
